@@ -3,6 +3,7 @@ package main
 // C17 — content helpers.  Case kinds written to cases.txt:
 //   contains <id> <content hex> <needle,needle,...>      (FileContainsAnyBytes / FileContainsBytes)
 import (
+	"os"
 	"bytes"
 	"fmt"
 	"strings"
@@ -28,9 +29,16 @@ func containsCase(c *Ctx, fs afero.Fs, id string, content []byte, nd [][]byte) {
 	}
 	var got bool
 	var err error
-	if single && len(nd) == 1 {
+	viaMethod := fnvStr(id)%2 == 1 // the Afero methods and the package-level functions, half and half
+	a := afero.Afero{Fs: fs}
+	switch {
+	case single && viaMethod:
+		got, err = a.FileContainsBytes(name, nd[0])
+	case single:
 		got, err = afero.FileContainsBytes(fs, name, nd[0])
-	} else {
+	case viaMethod:
+		got, err = a.FileContainsAnyBytes(name, nd)
+	default:
 		got, err = afero.FileContainsAnyBytes(fs, name, nd)
 	}
 	if err != nil {
@@ -167,6 +175,54 @@ func runC17(c *Ctx) {
 		}
 		containsCase(c, fs, fmt.Sprintf("r%d", i), content, nd)
 	}
+	// (3) long files: the reader works in blocks; needles planted across multiples of 4096 and of the
+	// search window, and nowhere (a false positive needs stale bytes of an earlier window)
+	nLong := 60
+	if c.Tier == "thorough" {
+		nLong = 1500
+	}
+	for i := 0; i < nLong; i++ {
+		L := Pick(r, []int{1, 2, 2, 3, 5, 17, 600, 1024, 1500})
+		size := Pick(r, []int{4095, 4096, 4097, 8191, 8192, 8200, 12288, 12300, 20000}) + r.Range(0, 3)
+		content := make([]byte, size)
+		for q := range content {
+			content[q] = Pick(r, []byte{'a', 'b', 0, 'x'})
+		}
+		needle := make([]byte, L)
+		for q := range needle {
+			needle[q] = Pick(r, []byte{'x', 'y', 'z', 0})
+		}
+		needle[0] = 'y' // not in the content: found only where planted (or by mistake)
+		if r.Chance(3, 4) && size > L+8 {
+			pos := Pick(r, []int{4096, 8192, 12288, 2 * L, 4 * L, 4096 - 4096%max(2*L, 1)}) + r.Range(-L-1, 1)
+			if pos < 0 {
+				pos = 0
+			}
+			if pos+L > size {
+				pos = size - L
+			}
+			copy(content[pos:], needle)
+		}
+		containsCase(c, fs, fmt.Sprintf("l%d", i), content, [][]byte{needle})
+	}
+	// (4) readers that deliver fewer bytes than asked (network files do): at most k bytes per Read
+	for i := 0; i < nLong*3; i++ {
+		kmax := r.Range(1, 9)
+		L := r.Range(1, 6)
+		size := r.Range(0, 14*L)
+		content := make([]byte, size)
+		for q := range content {
+			content[q] = Pick(r, []byte{0, 'a', 'b', 'x'})
+		}
+		needle := make([]byte, L)
+		for q := range needle {
+			needle[q] = Pick(r, []byte{0, 'a', 'x'})
+		}
+		if r.Chance(1, 2) && size >= L {
+			copy(content[r.Range(0, size-L):], needle)
+		}
+		containsCase(c, shortReadFs{fs, kmax}, fmt.Sprintf("k%d", i), content, [][]byte{needle})
+	}
 	genC17b(c)
 	runC17OS(c) // WriteFile / WriteReader / SafeWriteReader + ReadFile (c17b.go)
 }
@@ -176,4 +232,38 @@ func (r *Rng) shuffle(xs [][]byte) {
 		j := r.Intn(i + 1)
 		xs[i], xs[j] = xs[j], xs[i]
 	}
+}
+
+// shortReadFs: files whose Read returns at most k bytes per call
+type shortReadFs struct {
+	afero.Fs
+	k int
+}
+
+type shortReadFile struct {
+	afero.File
+	k int
+}
+
+func (s shortReadFs) Open(name string) (afero.File, error) {
+	f, err := s.Fs.Open(name)
+	if err != nil {
+		return nil, err
+	}
+	return shortReadFile{f, s.k}, nil
+}
+
+func (s shortReadFs) OpenFile(name string, flag int, perm os.FileMode) (afero.File, error) {
+	f, err := s.Fs.OpenFile(name, flag, perm)
+	if err != nil {
+		return nil, err
+	}
+	return shortReadFile{f, s.k}, nil
+}
+
+func (f shortReadFile) Read(p []byte) (int, error) {
+	if len(p) > f.k {
+		p = p[:f.k]
+	}
+	return f.File.Read(p)
 }
